@@ -612,7 +612,10 @@ def fit_formula(rep, prog, rule):
                     rep.unk(rule, key, loc, "%s = 0 without a comparison of the crop size on the path" % fld)
                 continue
             opaque = [a for a in atoms_of(act) if a[0] in ("g", "trunc", "max", "min", "floor")]
-            if len(cents) == 1 and not opaque:
+            if "@bb" in show(act):
+                # the crop size / the centering come out of a helper that was not resolved
+                rep.unk(rule, key, loc, "%s = %s: built from the result of a helper call" % (fld, show(act)[:120]))
+            elif len(cents) == 1 and not opaque:
                 rep.bad(rule, key, loc, "%s is  %s  but the property requires  (%s - %s) * centering.%d"
                         % (fld, show(act)[:160], dims[0], crop, ci))
             else:
